@@ -163,7 +163,7 @@ func TestC14Fn(t *testing.T) {
 		c := genFnCase(rt)
 		if name, msg := checkFn(rec, c); msg != "" {
 			rec.Violation(name, msg, c)
-			rt.Fatalf("%s", msg)
+			rt.Fatalf("%s", name) // constant text: rapid only keeps shrinking while the failure message stays the same
 		}
 	})
 }
